@@ -1629,6 +1629,17 @@ class Engine:
                 # int(float) truncates towards zero (floats as reals: infinities and NaN are outside the model)
                 return [(s, mk_int(z3.If(x.z >= 0, z3.ToInt(x.z), -z3.ToInt(-x.z))))]
             raise OutOfSubset(f"int() of {x.ty}")
+        if name == "round" and len(pos) == 1 and not kw:
+            # round(x) of a number: to the nearest integer, ties to the even one
+            (x,) = pos
+            if x.ty == INT:
+                return [(s, x)]
+            if x.ty == REAL:
+                f = z3.ToInt(x.z)
+                frac = x.z - z3.ToReal(f)
+                half = z3.RealVal("1/2")
+                return [(s, mk_int(z3.If(frac < half, f, z3.If(frac > half, f + 1, z3.If(f % 2 == 0, f, f + 1)))))]
+            raise OutOfSubset(f"round() of {x.ty}")
         if name == "str":
             (x,) = pos
             if x.ty == STR:
@@ -1999,7 +2010,7 @@ class Engine:
             return [(s, mk_bool(z3.PrefixOf(pos[0].z, recv.z)))]
         if ty == STR and name == "translate" and len(pos) == 1 and isinstance(pos[0].ty, TConst) and pos[0].z[0] == "strtable":
             return [(s, mk_str(smt.str_fn(pos[0].z[1])(recv.z)))]
-        if ty == STR and name in ("rstrip", "split", "lower") and all(isinstance(z3.simplify(a.z), z3.SeqRef) and z3.is_string_value(z3.simplify(a.z)) for a in pos):
+        if ty == STR and name in ("rstrip", "strip", "lstrip", "split", "lower", "upper") and all(isinstance(z3.simplify(a.z), z3.SeqRef) and z3.is_string_value(z3.simplify(a.z)) for a in pos):
             # lexing helpers: uninterpreted functions named after the call (their relation to "\t".join is a
             # lexing axiom, see specs/parser.py)
             arg = "|".join(z3.simplify(a.z).as_string() for a in pos)
@@ -2981,7 +2992,7 @@ INT_COERCING_PARAMS = {"start", "end", "strand", "length"}
 
 BUILTIN_NAMES = {
     "isinstance", "len", "min", "max", "abs", "bool", "int", "str", "float", "sum", "sorted", "range",
-    "enumerate", "zip", "tuple", "next", "ord", "chr", "list", "set", "dict", "getattr", "hasattr",
+    "enumerate", "zip", "tuple", "next", "ord", "round", "chr", "list", "set", "dict", "getattr", "hasattr",
     "ValueError", "IndexError", "KeyError", "NotImplementedError", "StopIteration", "FileExistsError",
     "FileNotFoundError", "Exception", "TypeError",
 }
